@@ -281,6 +281,9 @@ func gen(g *kernel.Rng, seed uint64, tier string) *kernel.Plan {
 	if big {
 		n[4] = int64(g.Range(1, 5))
 		n[5] = g.OneOf(4000, 5000, 65000, 65530, 65536, 66000, 70000, 80003, 140000)
+		if g.Bool(0.12) {
+			n[5] = g.OneOf(1048570, 1048577, 1100000, 2200000) // beyond 1 MiB
+		}
 	}
 	if n[3] == 0 && (n[6] == 1 || n[6] == 2 || n[6] == 4) {
 		n[6] = 3
@@ -295,6 +298,7 @@ func gen(g *kernel.Rng, seed uint64, tier string) *kernel.Plan {
 	if len(dec) > 20000 && p.Cfg["rseg"] == simnet.SegSmall {
 		p.Cfg["rseg"] = simnet.SegChunky
 	}
+	p.Cfg["eofdata"] = int64(g.Pick(2, 1))
 	p.Cfg["split"] = -1
 	if mo := markerOffsets(dec); len(mo) > 0 && g.Bool(0.5) {
 		p.Cfg["split"] = int64(mo[g.Intn(len(mo))])
@@ -348,6 +352,7 @@ func mkReader(p *kernel.Plan, tape *kernel.Tape, data []byte) (io.Reader, *simne
 	pipe := simnet.NewPipe("file", nil, tape)
 	pipe.NoYield = true
 	pipe.RSeg = int(p.C("rseg"))
+	pipe.EOFData = p.C("eofdata") != 0
 	pipe.Write(data)
 	pipe.CloseWrite()
 	var r io.Reader = pipe
@@ -411,6 +416,10 @@ func run(p *kernel.Plan) (res *kernel.Result) {
 	if len(dec) > 65536 {
 		res.Stat("docs_over_64KiB", 1)
 	}
+	if len(dec) > 1<<20 {
+		res.Stat("docs_over_1MiB", 1)
+	}
+	res.Stat("reads_returning_data_with_eof", int64(pipe.St.EOFWithData))
 	if p.C("split") > 0 {
 		res.Stat("forced_split_inside_marker", 1)
 	}
